@@ -53,6 +53,19 @@ Theorem C18_quoted_name_content :
 Proof. exact quoted_string_content. Qed.
 Print Assumptions C18_quoted_name_content.
 
+(* for a population of plain lights the snapshot script is a straight-line program, so the forward
+   simulation of C01 applies: compiled, loaded and run on the machine model from the initial state it
+   finishes with exactly the events the reference semantics gives for the generated tree, whatever
+   the names, the captured values and the population at replay time *)
+From Bardolph Require Import Lang.Instr Lang.Loader Lang.Machine Lang.Sem Lang.CodeGen Lang.Simulation.
+Theorem C18_plain_snapshot_runs_as_its_source_says :
+  forall (p : population) (w : world) (fuel : nat) (evs : list event),
+    plain_only p = true -> (seq_size (snapshot_ast p) <= fuel)%nat ->
+    run_src fuel (snapshot_ast p) w = SFinished evs ->
+    exists k, run_program k (compile (snapshot_ast p)) w = Finished evs.
+Proof. exact plain_snapshot_runs_as_its_source_says. Qed.
+Print Assumptions C18_plain_snapshot_runs_as_its_source_says.
+
 (* the hypotheses are satisfiable and the conclusion is about a real state *)
 Example C18_nonvacuous :
   let p := [mkDevice "a b" (DPlain [1; 2; 3; 4] true); mkDevice "m" (DMatrix 1 2 [[5; 6; 7; 8]; [9; 10; 11; 12]]); mkDevice "z" (DMulti [[1; 1; 1; 1]; [2; 2; 2; 2]])] in
